@@ -511,3 +511,139 @@ class C13(PropDef):
         for mis in (1, 4, 7):
             cases.append(find_case(64, [(8, hdr(16))], mis))
         return cases
+
+
+# =========================================================================== SWEEP-based properties
+
+from . import mbi as _mbi        # noqa: E402
+from . import oracle as _oracle  # noqa: E402
+
+
+class SweepProp(PropDef):
+    oracle_fn = None
+    trivial_prefixes = ()
+    assumptions = ["the region is 8-aligned, readable for its declared size, placed flush against a PROT_NONE guard page",
+                   "ELF section NAMES are not called (documented to dereference an external address)"]
+
+    def trivial(self, model_line):
+        return not model_line.startswith("ld=ok")
+
+    def oracle(self, case, impl, config):
+        if not case.startswith("SWEEP"):
+            return None
+        if impl.startswith("crash"):
+            return "the process crashed (%s)" % impl
+        try:
+            return type(self).oracle_fn(case, impl)
+        except Exception as e:  # an unparsable observation is a finding of its own
+            return "oracle could not parse the observation: %r" % (e,)
+
+
+@register
+class C18(SweepProp):
+    id = "C18"
+    oracle_fn = staticmethod(_oracle.c18_oracle)
+    rule = ("SWEEP over EFI memory-map tags: descriptor sizes 0..65 + {72,80,96,120,127,128} (thorough: all 0..128) x versions "
+            "{1,0,2} x map lengths {0, 8, d-8, d, d+8, 2d, 3d, 40, 48, 80, 96}, random descriptor contents, random neighbour "
+            "tags, with and without a boot-services-not-exited tag; len()/size_hint() observed before and after every next(). "
+            "Non-trivial = distinct cases that load.")
+
+    def gen(self, tier, rng):
+        return _mbi.gen_efi(rng, tier) + _mbi.gen_wellformed(rng, 40 if tier == "quick" else 400)
+
+
+@register
+class C19(SweepProp):
+    id = "C19"
+    oracle_fn = staticmethod(_oracle.c19_oracle)
+    rule = ("SWEEP over ELF-sections tags: entry sizes {0,1,8,39,40,41,48,63,64,65,72,80,128} (thorough: all 0..128) x counts "
+            "{0,1,2,3,5} x present entries {0,1,n-1,n,n+1} x string-table indices {0,1,n-1,n,n+1,0x10000,2^32-1}, all raw type "
+            "classes and range ends for both layouts, u32-overflowing count*size / shndx*size. Non-trivial = distinct cases that load.")
+
+    def gen(self, tier, rng):
+        return _mbi.gen_elf(rng, tier) + _mbi.gen_wellformed(rng, 40 if tier == "quick" else 400)
+
+
+@register
+class C17(SweepProp):
+    id = "C17"
+    oracle_fn = staticmethod(_oracle.c17_oracle)
+    rule = ("SWEEP over command-line / boot-loader-name / module tags: ALL strings of length 0..3 (thorough: 0..4) over the "
+            "alphabet {NUL, 'a', 0x7f, 0x80, 0xC3, 0xA9, 0xE2, 0xFF} with NUL or 'z' in the padding (so a terminator only in the "
+            "padding is visible), random longer strings incl. overlongs / surrogates / > U+10FFFF with the declared size cutting "
+            "0..3 bytes before the end; CTOR cases: the three constructors on random valid strings. Non-trivial = distinct cases that load.")
+
+    def gen(self, tier, rng):
+        return _mbi.gen_strings(rng, 3 if tier == "quick" else 4, 150 if tier == "quick" else 1500) + (PROPS["C07"].string_ctor_cases(rng, tier) if "C07" in PROPS else [])
+
+
+@register
+class C05(SweepProp):
+    id = "C05"
+    poison = True
+    oracle_fn = staticmethod(_oracle.c05_oracle)
+    rule = ("SWEEP: every tag kind with every adversarial declared size {0,7,8,9,fixed-1,fixed,fixed+1,size-1,size+1,occupied-7.."
+            "occupied+8,size+24,2^32-1}, alone and between random neighbour tags (distinguishable bytes in padding and next tag), "
+            "framebuffer palettes with colour counts up to 65535 against 0..9 present bytes; each case run with two poison "
+            "fills outside the region; HSWEEP: information-request tags of every size 0..40. Non-trivial = distinct cases that load.")
+
+    def gen(self, tier, rng):
+        return _mbi.gen_sizes(rng, 1 if tier == "quick" else 4) + _mbi.gen_fb(rng) + _mbi.gen_strings(rng, 2, 40) + _mbi.gen_wellformed(rng, 30)
+
+
+@register
+class C04(SweepProp):
+    id = "C04"
+    oracle_fn = staticmethod(_oracle.c04_oracle)
+    rule = ("SWEEP over spec-conformant regions: each of the 22 kinds alone (x3), duplicated with differing contents (first match), "
+            "random multisets and orders (every field byte random = independently marked), all 256 framebuffer type bytes, "
+            "EFI map with/without boot-services tag, RSDP valid/invalid checksums and lengths; the Python oracle decodes every "
+            "field from the raw bytes at the specification's offsets. Non-trivial = distinct cases that load.")
+
+    def gen(self, tier, rng):
+        return _mbi.gen_wellformed(rng, 300 if tier == "quick" else 3000) + _mbi.gen_fb(rng) + _mbi.gen_misc(rng) + _mbi.gen_efi(rng, "quick")[:200]
+
+
+@register
+class C01(SweepProp):
+    id = "C01"
+    poison = True
+    oracle_fn = staticmethod(_oracle.c01_oracle)
+    rule = ("SWEEP = load + EVERY safe getter, accessor, iterator (drained, each item's accessors), len()/size_hint(), Debug, each "
+            "under catch_unwind, in a child process, region flush against a PROT_NONE page at its end and (second placement) at "
+            "its start, two poison fills: union of the adversarial streams of C04/C05/C17/C18/C19 (every size/count/length/stride/"
+            "index field at adversarial values, broken walks, truncated totals). Non-trivial = distinct cases that load.")
+
+    def gen(self, tier, rng):
+        cases = (_mbi.gen_wellformed(rng, 100 if tier == "quick" else 1000) + _mbi.gen_sizes(rng, 1 if tier == "quick" else 3) +
+                 _mbi.gen_strings(rng, 2, 60) + _mbi.gen_efi(rng, tier) + _mbi.gen_elf(rng, tier) + _mbi.gen_fb(rng) + _mbi.gen_misc(rng))
+        # second placement: flush against the LOWER guard page for a sample
+        extra = [c + " start" for c in cases[:: (7 if tier == "quick" else 2)]]
+        return cases + extra
+
+
+CAST_CODES = ["s0", "s1", "s2", "s3", "s4", "s5", "s6", "d0e1", "d0e2", "d0e3", "d0e4", "d0e8", "d0e24", "d1e1", "d1e3", "d1e4",
+              "d1e8", "d2e1", "d2e2", "d2e8", "d2e24", "d3e3", "d3e4", "d3e8", "d4e1", "d4e4", "d4e24"]
+
+
+@register
+class C15(PropDef):
+    id = "C15"
+    rule = ("CAST: 27 user-defined tag types in the harness (sized with 0..6 extra words; dynamically sized with 0..4 words "
+            "before a tail of 1/2/3/4/8/24-byte elements, truthful dst_len) x every tag size 0..96 (thorough: 0..256), plus SWEEP "
+            "over all built-in kinds x adversarial sizes; observed: panic or (address offset, size_of_val, tail length). "
+            "Non-trivial = distinct cases where the cast succeeds.")
+    assumptions = ["custom types declare their fixed size and element count truthfully (hypothesis of the property)"]
+
+    def trivial(self, model_line):
+        return not (model_line.startswith("ok") or model_line.startswith("ld=ok"))
+
+    def gen(self, tier, rng):
+        top = 96 if tier == "quick" else 256
+        cases = ["CAST %s %d" % (c, s) for c in CAST_CODES for s in range(0, top + 1)]
+        return cases + _mbi.gen_sizes(rng, 1)
+
+    def oracle(self, case, impl, config):
+        if case.startswith("SWEEP"):
+            return _oracle.c01_oracle(case, impl)
+        return None
